@@ -239,57 +239,73 @@ func maliciousClientUnit() harness.Unit {
 			{"certificate without the clientAuth extended key usage", func(p *tlsk.PKI) gmtls.Certificate { return p.ClientServerEKU }, true, verifying(false)},
 			{"genuine certificate, CertificateVerify made with another key", func(p *tlsk.PKI) gmtls.Certificate { return keyed(p.Client, p.OtherKey) }, true, noKeyProof},
 		}
+		// outer: -1 = the server Config is used directly; otherwise it is handed out by
+		// GetConfigForClient of an outer Config whose own ClientAuth is the given (other) policy - the
+		// policy in force is the one of the Config that serves the connection
+		outers := []int{-1, int(gmtls.NoClientCert), int(gmtls.RequestClientCert), int(gmtls.RequireAndVerifyClientCert)}
+		via := func(sc *gmtls.Config, suite uint16, outer int) *gmtls.Config {
+			if outer < 0 {
+				return sc
+			}
+			oc := baseServer(suite, 3)
+			oc.ClientAuth = gmtls.ClientAuthType(outer)
+			oc.ClientCAs = p.Roots
+			oc.GetConfigForClient = func(*gmtls.ClientHelloInfo) (*gmtls.Config, error) { return sc, nil }
+			return oc
+		}
 		for _, suite := range suites {
-			for _, pol := range policies {
-				for _, b := range bad {
-					sc := baseServer(suite, 1)
-					sc.ClientAuth = pol
-					sc.ClientCAs = p.Roots
-					cc := baseClient(suite, 2)
-					crt := b.cert(p)
-					if b.force {
-						cc.GetClientCertificate = func(*gmtls.CertificateRequestInfo) (*gmtls.Certificate, error) { return &crt, nil }
-					} else {
-						cc.Certificates = []gmtls.Certificate{crt}
+			for _, outer := range outers {
+				for _, pol := range policies {
+					for _, b := range bad {
+						sc := baseServer(suite, 1)
+						sc.ClientAuth = pol
+						sc.ClientCAs = p.Roots
+						cc := baseClient(suite, 2)
+						crt := b.cert(p)
+						if b.force {
+							cc.GetClientCertificate = func(*gmtls.CertificateRequestInfo) (*gmtls.Certificate, error) { return &crt, nil }
+						} else {
+							cc.Certificates = []gmtls.Certificate{crt}
+						}
+						tag := fmt.Sprintf("suite=%04x ClientAuth=%d (outer Config: %d) client presents: %s", suite, pol, outer, b.name)
+						c.Add("evaluations", 1)
+						c.DistinctS("nontrivial", tag)
+						o := run(cc, via(sc, suite, outer), nil)
+						if crashOf(c, "server", "malicious-client:"+b.name, tag, o) {
+							continue
+						}
+						want := b.accept[pol]
+						if want && !(o.S.Complete && o.C.Complete) {
+							c.Violate(fmt.Sprintf("server-rejects-acceptable-client:policy%d:%s", pol, b.name), fmt.Sprintf("[%s] the policy admits this client but the handshake failed: %s", tag, o.Describe()), nil, tag)
+						}
+						if !want && (o.S.Complete || o.S.HandshakeErr == nil) {
+							c.Violate(fmt.Sprintf("server-accepts:policy%d:%s", pol, b.name), fmt.Sprintf("[%s] the server completed the handshake: %s", tag, o.Describe()), nil, tag)
+						}
+						if !want && len(o.S.Read) > 0 {
+							c.Violate("server-reads-data-from:"+b.name, fmt.Sprintf("[%s] the server delivered application data", tag), nil, tag)
+						}
 					}
-					tag := fmt.Sprintf("suite=%04x ClientAuth=%d client presents: %s", suite, pol, b.name)
+					// no certificate at all
+					sc := baseServer(suite, 1)
+					sc.ClientAuth, sc.ClientCAs = pol, p.Roots
+					o := run(baseClient(suite, 2), via(sc, suite, outer), nil)
+					tag := fmt.Sprintf("suite=%04x ClientAuth=%d (outer Config: %d) client presents no certificate", suite, pol, outer)
 					c.Add("evaluations", 1)
 					c.DistinctS("nontrivial", tag)
-					o := run(cc, sc, nil)
-					if crashOf(c, "server", "malicious-client:"+b.name, tag, o) {
+					if crash(c, "no-client-cert", tag, o) {
 						continue
 					}
-					want := b.accept[pol]
-					if want && !(o.S.Complete && o.C.Complete) {
-						c.Violate(fmt.Sprintf("server-rejects-acceptable-client:policy%d:%s", pol, b.name), fmt.Sprintf("[%s] the policy admits this client but the handshake failed: %s", tag, o.Describe()), nil, tag)
+					require := pol == gmtls.RequireAnyClientCert || pol == gmtls.RequireAndVerifyClientCert
+					if require && (o.S.Complete || o.S.HandshakeErr == nil) {
+						c.Violate(fmt.Sprintf("server-accepts:policy%d:no certificate", pol), fmt.Sprintf("[%s] %s", tag, o.Describe()), nil, tag)
 					}
-					if !want && (o.S.Complete || o.S.HandshakeErr == nil) {
-						c.Violate(fmt.Sprintf("server-accepts:policy%d:%s", pol, b.name), fmt.Sprintf("[%s] the server completed the handshake: %s", tag, o.Describe()), nil, tag)
+					if !require && !(o.S.Complete && o.C.Complete) {
+						c.Violate(fmt.Sprintf("server-rejects-acceptable-client:policy%d:no certificate", pol), fmt.Sprintf("[%s] %s", tag, o.Describe()), nil, tag)
 					}
-					if !want && len(o.S.Read) > 0 {
-						c.Violate("server-reads-data-from:"+b.name, fmt.Sprintf("[%s] the server delivered application data", tag), nil, tag)
-					}
-				}
-				// no certificate at all
-				sc := baseServer(suite, 1)
-				sc.ClientAuth, sc.ClientCAs = pol, p.Roots
-				o := run(baseClient(suite, 2), sc, nil)
-				tag := fmt.Sprintf("suite=%04x ClientAuth=%d client presents no certificate", suite, pol)
-				c.Add("evaluations", 1)
-				c.DistinctS("nontrivial", tag)
-				if crash(c, "no-client-cert", tag, o) {
-					continue
-				}
-				require := pol == gmtls.RequireAnyClientCert || pol == gmtls.RequireAndVerifyClientCert
-				if require && (o.S.Complete || o.S.HandshakeErr == nil) {
-					c.Violate(fmt.Sprintf("server-accepts:policy%d:no certificate", pol), fmt.Sprintf("[%s] %s", tag, o.Describe()), nil, tag)
-				}
-				if !require && !(o.S.Complete && o.C.Complete) {
-					c.Violate(fmt.Sprintf("server-rejects-acceptable-client:policy%d:no certificate", pol), fmt.Sprintf("[%s] %s", tag, o.Describe()), nil, tag)
 				}
 			}
 		}
-		c.Sample("5 client identities + no certificate x 5 ClientAuth policies x 2 suites against a library server; acceptance predicted per policy")
+		c.Sample("5 client identities + no certificate x 5 ClientAuth policies x {Config used directly, handed out by GetConfigForClient of an outer Config with policy none / request / require-and-verify} x 2 suites against a library server; acceptance predicted per policy")
 	}}
 }
 
